@@ -69,6 +69,20 @@ def main():
         eng = meta.get("engine", "E3-small-scope-enumeration")
         for e in eng.split("+"):
             serves.setdefault(e, []).append(pid)
+        intro = []
+        if "E1" in eng:
+            intro.append("Stateless model checking of the implementation itself: every thread schedule of the listed harnesses up to the deepest "
+                         "completed (preemptions, early timer firings) level is executed on the real code under a scheduler that owns every source of "
+                         "nondeterminism (threads, locks, queue, clock, sockets); a verdict is a replayable schedule, and a pass is a coverage statement "
+                         "('no schedule within the bound violates the property'), which a test run cannot give.")
+        if "E2" in eng:
+            intro.append("Explicit enumeration of every history / fault sequence up to the depth bound, each replayed from the initial state through the "
+                         "real client and server code over a deterministic in-memory network (validated against kernel sockets where stated).")
+        if "E3" in eng:
+            intro.append("Small-scope exhaustive enumeration: every term of the stated finite grammar (inputs, configurations, generated programs) up to "
+                         "the bound is fed to the real code and judged by a reference model written from the property text; alphabets put one value on "
+                         "each side of every branch visible in the anchored code.")
+        level_text = " ".join(intro) + " Explored space: " + meta["rule"]
         entry = {
             "property_id": pid,
             "quick_cmd": "./check %s --tier quick" % pid,
@@ -78,7 +92,7 @@ def main():
             "engine": eng,
             "level_claimed": {
                 "category": meta.get("level", "model_checking"),
-                "text": meta.get("level_text", meta["rule"]),
+                "text": meta.get("level_text", level_text),
                 "design_ref": "DESIGN.md section 4, %s" % pid,
             },
             "level_note": "; ".join(meta.get("assumptions", [])) or "bounded alphabets as stated in the evidence file",
